@@ -38,12 +38,15 @@ def clone(obj, kind):
     return copy.deepcopy(dill.loads(dill.dumps(copy.deepcopy(obj))))       # copy of a copy
 
 
-def mutate(m, op):
+def mutate(m, op, restored=False):
     """operations that may disturb shared state: the history operations of C07 plus re-finishing"""
     if op < M.NOPS:
         M.apply_op(m, op)
     elif op == M.NOPS:
-        m.finish()                      # completing and finishing a complete model again (on a copy: without its `cells`)
+        # finishing a complete model again.  A copy (restored without its `cells`) is completed as well; the
+        # original dictionary model has no workbook file to complete its blank cells from (that is the open
+        # finding C14-absent-range-overrides-known-cells), so it is finished without completion
+        m.finish(complete=restored)
     else:
         m.calculate(inputs={P + 'A1': 77, M.BLOCK: [[9, 9], [9, 9]]})
 
@@ -63,7 +66,7 @@ def _model(kind, op_a, op_b, first_a, k):
     mutate(a, op_a)
     if M.norm(b.calculate(inputs=inp)) != want:
         return False
-    mutate(b, op_b)
+    mutate(b, op_b, restored=True)
     if M.norm(a.calculate(inputs=inp)) != want:
         return False
     return M.norm(b.calculate(inputs=inp)) == want
